@@ -130,21 +130,42 @@ def _swapped(diffs, old, new):
         return False
     if not (ast.unparse(o1) == ast.unparse(stmts[1]) and ast.unparse(o2) == ast.unparse(stmts[0])):
         return False
+    _swapped.last = (stmts[0], stmts[1])
     # two statements may change places unnoticed only if neither reads what the other writes and at most one of them calls
     # anything (two calls may touch the same object: stack.pop() / stack.append())
     def rw(st):
         reads = {n.id for n in ast.walk(st) if isinstance(n, ast.Name) and isinstance(n.ctx, ast.Load)}
         writes = {n.id for n in ast.walk(st) if isinstance(n, ast.Name) and isinstance(n.ctx, (ast.Store, ast.Del))}
         writes |= {ast.unparse(n.value) for n in ast.walk(st) if isinstance(n, (ast.Attribute, ast.Subscript)) and isinstance(n.ctx, (ast.Store, ast.Del)) and isinstance(n.value, ast.Name)}
-        calls = sum(1 for n in ast.walk(st) if isinstance(n, ast.Call))
-        return reads, writes, calls
+        # a call may change its receiver and its arguments; library modules (_ssl, struct, hashlib, ...) hold no state of ours
+        MODS = {'_ssl', 'struct', 'hashlib', 'binascii', 'bitcoin', 'ctypes', 'math', 'os', 'json', 'base64'}
+        touched = set()
+        for n in ast.walk(st):
+            if isinstance(n, ast.Call):
+                f = n.func
+                root = f
+                while isinstance(root, ast.Attribute):
+                    root = root.value
+                if isinstance(root, ast.Name) and root.id not in MODS and isinstance(f, ast.Attribute):
+                    touched.add(root.id)
+                if isinstance(f, ast.Name) and f.id not in ('len', 'int', 'bytes', 'str', 'repr', 'tuple', 'list', 'min', 'max', 'range', 'isinstance', 'ord', 'chr', 'bool'):
+                    touched.add('<call %s>' % f.id)
+                for a_ in n.args:
+                    for x in ast.walk(a_):
+                        if isinstance(x, ast.Name):
+                            touched.add(x.id)
+        return reads, writes | touched, 0
     r1, w1, c1 = rw(stmts[0])
     r2, w2, c2 = rw(stmts[1])
-    if (w1 & (r2 | w2)) or (w2 & r1) or (c1 and c2):
-        return False
+    plain = lambda ws: {w for w in ws if w.startswith('<call')}
+    if (w1 & (r2 | w2)) or (w2 & r1) or (plain(w1) and plain(w2)):
+        return 'dependent'
     if isinstance(stmts[0], (ast.Return, ast.Raise, ast.Break, ast.Continue)) or isinstance(stmts[1], (ast.Return, ast.Raise, ast.Break, ast.Continue)):
-        return False
+        return 'dependent'
     return True
+
+
+_swapped.last = None
 
 
 TEST_FIELDS = {(ast.If, 'test'), (ast.While, 'test'), (ast.Assert, 'test'), (ast.IfExp, 'test'), (ast.comprehension, 'ifs')}
@@ -236,8 +257,14 @@ def rule_token(ctx, rid):
             r.ok(key, fi.site, 'identical to the confirmed function')
             continue
         diffs = _without_renames(diffs, old)
-        if diffs and _swapped(diffs, old, cur):
-            r.ok(key, fi.site, 'two neighbouring statements changed places: left to the property\'s own rules')
+        sw = _swapped(diffs, old, cur) if diffs else False
+        if sw is True:
+            r.ok(key, fi.site, 'two independent neighbouring statements changed places')
+            continue
+        if sw == 'dependent':
+            a_, b_ = _swapped.last
+            r.undecided('edit:%s:swap' % key, common.site_of(fi, a_), 'two neighbouring statements of %s changed places (`%s` / `%s`) and one uses what the other writes, or both call: the order is part of what they compute'
+                        % (fi.name, norm(a_)[:50], norm(b_)[:50]))
             continue
         if not diffs:
             r.ok(key, fi.site, 'identical to the confirmed function up to the names of locals')
